@@ -588,7 +588,11 @@ class NetworkXPropertyGraph(ABCPropertyGraph, NetworkXMixin):
         assert node_id is not None
         assert label is not None
 
-        if self.node_exists(node_id=node_id, label=label):
+        if len(list(nxq.search_nodes(self.storage.get_graph(self.graph_id),
+                                     {'and': [
+                                         {'eq': [ABCPropertyGraph.GRAPH_ID, self.graph_id]},
+                                         {'eq': [ABCPropertyGraph.NODE_ID, node_id]}]}))) > 0:
+            # node ids are unique within a graph whatever the class of the node
             raise PropertyGraphQueryException(node_id=node_id, graph_id=self.graph_id,
                                               msg="Unable to add node - a node with this ID exists")
 
